@@ -28,6 +28,8 @@ val compOpp : comparison -> comparison
 
 val add : nat -> nat -> nat
 
+val mul : nat -> nat -> nat
+
 val sub : nat -> nat -> nat
 
 val eqb : bool -> bool -> bool
@@ -257,6 +259,12 @@ val ch : nat -> char
 val ascii_Z : char -> z
 
 val is_digit : char -> bool
+
+val is_lower : char -> bool
+
+val is_upper : char -> bool
+
+val is_alpha : char -> bool
 
 val is_pyspace : char -> bool
 
@@ -720,6 +728,8 @@ val quote_string : char list -> char list
 val opt_cat : char list option -> char list option -> char list option
 
 val wal_str : (nat -> char list option) -> val0 -> char list option
+
+val wal_str0 : val0 -> char list option
 
 val span_digits : char list -> char list * char list
 
@@ -1366,6 +1376,91 @@ val parse_vals :
 val hex64 : z -> char list
 
 val print_val : (char list * val0) list list -> nat -> val0 -> char list
+
+type 'a rres0 =
+| ROk of 'a * char list
+| RErr
+| RUnm
+
+val aZ : char -> z
+
+val is_ws : char -> bool
+
+val is_nl : char -> bool
+
+val is_word : char -> bool
+
+val is_sym_first : char -> bool
+
+val is_sym_rest : char -> bool
+
+val is_hex : char -> bool
+
+val is_bin : char -> bool
+
+val is_octal : char -> bool
+
+val modelled_text : char list -> bool
+
+val span_sym : char list -> char list * char list
+
+val span_p : (char -> bool) -> char list -> char list * char list
+
+val skip_line : char list -> char list
+
+val skip_inter : nat -> char list -> char list
+
+val inter : char list -> char list
+
+val sym_or_op : char list -> val0
+
+val lex_string : char list -> (char list * char list) option
+
+type unesc =
+| UOk of char list
+| UErr
+| UUnm
+
+val unescape : nat -> char list -> unesc
+
+val float_of_decimal : bool -> char list -> char list -> spec_float option
+
+val split_sign : char list -> (bool * bool) * char list
+
+val lex_number : char list -> val0 rres0 option
+
+val is_pyspace_re : char -> bool
+
+val lex_base : char list -> (char list * char list) option
+
+val closer : char -> char option
+
+val two_char_ops : char list list
+
+val one_char_ops : char list list
+
+val first_prefix :
+  char list list -> char list -> (char list * char list) option
+
+val p_sexpr : nat -> char list -> val0 rres0
+
+val p_strict : nat -> char list -> val0 rres0
+
+val p_postfix : nat -> val0 -> char list -> val0 rres0
+
+val p_primary : nat -> char list -> val0 rres0
+
+val p_list : nat -> char -> char list -> val0 list -> val0 rres0
+
+val reader_fuel : char list -> nat
+
+val read_sexpr : char list -> val0 rres0
+
+val skip_shebang : char list -> char list
+
+val p_seq : nat -> nat -> char list -> val0 list -> val0 list rres0
+
+val read_sexprs : char list -> val0 list rres0
 
 val pF : nat
 
